@@ -7,10 +7,11 @@
   chains run on the real code are what stands for that clause.  (If the entry
   points cannot be found in the source the fact is `none` and nothing is claimed.)
 -/
+import Bio.Lemmas.SrcFacts
 import Bio.Generated.Src
 namespace Bio.SrcFacts
 
 theorem newick_traversal_not_recursive :
-    ∀ r, Bio.Generated.Src.newickTraverseRecursive = some r → r = false := by decide
+    holdsIfFound Bio.Generated.Src.newickTraverseRecursive (· == false) = true := by decide
 
 end Bio.SrcFacts
